@@ -195,7 +195,7 @@ NAMES = {
 ONECHAR = [b'x', b'c', b'1']
 LANGS = [b'none', b'c', b'c-header', b'cpp-output', b'qbe', b'assembler', b'assembler-with-cpp']
 MODES = [[], [], [b'-c'], [b'-S'], [b'-E'], [b'-emit-qbe'], [b'-M'], [b'-MM']]
-OPERAND_VALUES = [b'X', b'NAME=1', b'inc', b'dir/inc', b'm', b'v w', b'-c', b'--', b'a,b', b'x']
+OPERAND_VALUES = [b'X', b'NAME=1', b'inc', b'dir/inc', b'm', b'v w', b'-c', b'--', b'a,b', b'x', b'/opt/lib/libfoo.a', b':libz.a', b'../up/l', b'/', b'=v']
 
 
 def gen_option(rng):
@@ -276,6 +276,7 @@ def systematic(rng):
     opts = []
     for c in (b'-D', b'-U', b'-I', b'-L', b'-l', b'-o'):
         opts += [[c + b'V'], [c, b'V'], [c]]
+        opts += [[c + b'/abs/V.a'], [c, b'/abs/V.a'], [c, b':V.a']]
     for w in (b'-include', b'-idirafter', b'-isystem', b'-iquote', b'-MT', b'-MF'):
         opts += [[w, b'V'], [w]]
     opts += [[w] for w in (b'-nostdinc', b'-static', b'-nostdlib', b'-pthread', b'-s', b'-P', b'-MD', b'-MMD', b'-M', b'-MM', b'-std=c99', b'-v',
